@@ -147,6 +147,12 @@ def r1_nothing_dropped(chk, only_lhs=None, rule='C02.R1'):
     for dname, gs in all_shapes(chk):
         if gs.unsupported:
             raise AnalysisError('grammar actions not evaluable: %s' % list(gs.unsupported.items())[:3])
+        for p, expr in gs.nontoken.items():
+            chk.ob(rule, '%s/%s non-token value %s' % (dname, p.fn.name, expr), False, '%s:%s' % (PARSER, p.fn.lineno),
+                   'the value of `%s -> %s` is taken from the parser object (%s), not from the matched symbols: the '
+                   'tree is no longer an image of the text alone, and an object shared between parses (a class-level '
+                   'list or tuple holding one) is modified by the actions that extend it in place' % (
+                       p.lhs, ' '.join(p.rhs), expr))
         silent = set(n for n in gs.nonterminals if gs.av[n].always_none())
         for n in sorted(silent - set(SILENT)):
             fn = gs.by_lhs[n][0].fn
